@@ -377,8 +377,35 @@ def run(ctx):
                 r.violate(key, f"{f.key}: after a handler returned Err another handler call is still reachable (the remaining handlers run, and may emit output, before the error is returned)", f.loc())
     r.count("handler_call_sites", n66)
 
+    rule_failed_token_not_emitted(ctx, mir)
+
+    # ------------------------------------------------------------------ R12.7 (shared with C11 R11.1)
+    # after an error for which graceful bail-out is off nothing more reaches the sink: no bail-out handler / flush on the false edge
+    from .c11 import rule_bail_out_sites
+    rule_bail_out_sites(ctx, mir, rid="R12.7")
+
+    # ------------------------------------------------------------------ R12.9 (= R11.4)
+    from .c11 import rule_flag_independence
+    from ..smimpl import index as _index12
+    rule_flag_independence(ctx, _index12(), mir, rid="R12.9")
+
+    # ------------------------------------------------------------------ R12.10 (generic, scoped to this property's anchors)
+    sm.rule_named_plumbing(ctx, mir, "C12", "R12.10", floor=30)
+
+    # ------------------------------------------------------------------ R12.11 (= R10.11)
+    from .c10 import rule_errors_not_swallowed
+    rule_errors_not_swallowed(ctx, mir, rid="R12.11")
+
+    ctx.not_decided += ["the prefix relation between the output of a failed run and of the complete run (run-time)"]
+    ctx.assumptions += ["values listed in the reviewed non-emptiness table (lexeme raw bytes, validated names) are non-empty for the stated reasons"]
+    return ("Who-may-call and dominance rules over every call that hands bytes to the OutputSink or to an output handler "
+            "(%d sites), over Dispatcher::new/flush_encoding_change/finish and the HtmlRewriter poisoning guard; decides the protocol's "
+            "structural conditions on every CFG path, not the prefix relation between two runs." % len(sites))
+
+
+def rule_failed_token_not_emitted(ctx, mir, rid="R12.8"):
     # ------------------------------------------------------------------ R12.8
-    r = ctx.rule("R12.8", "a token whose handlers failed is not emitted: in DispatcherDelegate::token_produced / text_token_produced the serialisation (into_bytes) is reachable from the handle_token call only through the Ok edge of its `?`", "E-MIR reachability with the Ok edge removed", floor=2)
+    r = ctx.rule(rid, "a token whose handlers failed is not emitted: in DispatcherDelegate::token_produced / text_token_produced the serialisation (into_bytes) is reachable from the handle_token call only through the Ok edge of its `?`", "E-MIR reachability with the Ok edge removed", floor=2)
     for nm in ("DispatcherDelegate::token_produced", "DispatcherDelegate::text_token_produced"):
         f = mir.fn(nm)
         ht = [bi for bi, t in f.calls(r"handle_token$")]
@@ -395,22 +422,3 @@ def run(ctx):
         reach = f.reachable_without_edges(f.blocks[ht[0]]["term"]["t"], removed_blocks=(), removed_edges=ok_edges)
         if not ok_edges or ib[0] in reach:
             r.violate(nm, f"{nm} serialises the token on a path on which its handlers returned Err (the `?` on handle_token no longer precedes into_bytes): the failed token's bytes are emitted after the failure point, so the output of a failed run is not a prefix of the complete run", f.loc())
-
-    # ------------------------------------------------------------------ R12.7 (shared with C11 R11.1)
-    # after an error for which graceful bail-out is off nothing more reaches the sink: no bail-out handler / flush on the false edge
-    from .c11 import rule_bail_out_sites
-    rule_bail_out_sites(ctx, mir, rid="R12.7")
-
-    # ------------------------------------------------------------------ R12.9 (= R11.4)
-    from .c11 import rule_flag_independence
-    from ..smimpl import index as _index12
-    rule_flag_independence(ctx, _index12(), mir, rid="R12.9")
-
-    # ------------------------------------------------------------------ R12.10 (generic, scoped to this property's anchors)
-    sm.rule_named_plumbing(ctx, mir, "C12", "R12.10", floor=30)
-
-    ctx.not_decided += ["the prefix relation between the output of a failed run and of the complete run (run-time)"]
-    ctx.assumptions += ["values listed in the reviewed non-emptiness table (lexeme raw bytes, validated names) are non-empty for the stated reasons"]
-    return ("Who-may-call and dominance rules over every call that hands bytes to the OutputSink or to an output handler "
-            "(%d sites), over Dispatcher::new/flush_encoding_change/finish and the HtmlRewriter poisoning guard; decides the protocol's "
-            "structural conditions on every CFG path, not the prefix relation between two runs." % len(sites))
